@@ -538,3 +538,69 @@ Proof.
   - pose proof (rstep_own_reply f s q H) as G. rewrite E in G. exact G.
   - unfold rstep in E. injection E as _ <-. reflexivity.
 Qed.
+
+(** * Stale idle connections are retried until a fresh one is dialled *)
+
+Lemma loop_stale_then_fresh c j : forall r,
+  r + N.of_nat j <= Retry.allowed c ->
+  Retry.loop c r (stale_script j (Some true)) = (Retry.FOk, S j).
+Proof.
+  unfold stale_script, stale_att. induction j as [|j IH]; intros r H.
+  - reflexivity.
+  - cbn [repeat app Retry.loop Retry.a_ok]. fold stale_att.
+    assert (M : Retry.may_retry c r stale_att = true).
+    { unfold Retry.may_retry, stale_att, Retry.allowed in *. cbn [Retry.a_new Retry.a_ctx_dead negb].
+      rewrite !orb_true_r. cbn [andb]. rewrite andb_true_r.
+      destruct (Retry.strict c); lia. }
+    rewrite M. unfold stale_att.
+    rewrite (IH (r + 1)); [reflexivity | lia].
+Qed.
+
+(** one stale connection too many: the error of the last one is returned *)
+Lemma loop_stale_too_many c j : forall r,
+  r + N.of_nat j = Retry.allowed c + 1 -> (0 < j)%nat ->
+  Retry.loop c r (stale_script j (Some true)) = (Retry.FErr, j).
+Proof.
+  unfold stale_script, stale_att. induction j as [|j IH]; intros r H P; [lia|].
+  cbn [repeat app Retry.loop Retry.a_ok]. fold stale_att.
+  destruct j as [|j'].
+  - assert (M : Retry.may_retry c r stale_att = false).
+    { unfold Retry.may_retry, stale_att, Retry.allowed in *. cbn [Retry.a_new Retry.a_ctx_dead negb].
+      rewrite !orb_true_r. cbn [andb]. rewrite andb_true_r.
+      destruct (Retry.strict c); lia. }
+    rewrite M. unfold stale_att. reflexivity.
+  - assert (M : Retry.may_retry c r stale_att = true).
+    { unfold Retry.may_retry, stale_att, Retry.allowed in *. cbn [Retry.a_new Retry.a_ctx_dead negb].
+      rewrite !orb_true_r. cbn [andb]. rewrite andb_true_r.
+      destruct (Retry.strict c); lia. }
+    rewrite M. unfold stale_att.
+    rewrite (IH (r + 1)); [reflexivity | lia | lia].
+Qed.
+
+Lemma reuse_allowed : Retry.allowed Retry.reuse_cfg = reuse_max_retry + 1.
+Proof. reflexivity. Qed.
+
+Lemma reuse_stale_answered k f q :
+  N.of_nat k <= reuse_max_retry + 1 ->
+  reuse_stale k f q = (Reply (f q), mkEff true 1 (repeat q (S k))).
+Proof.
+  intro H. unfold reuse_stale. rewrite loop_stale_then_fresh; [reflexivity|].
+  rewrite reuse_allowed. lia.
+Qed.
+
+Lemma reuse_stale_too_many k f q :
+  N.of_nat k = reuse_max_retry + 2 ->
+  reuse_stale k f q = (Err e_closed, mkEff false 0 (repeat q k)).
+Proof.
+  intro H. unfold reuse_stale. rewrite loop_stale_too_many; [reflexivity| |].
+  - rewrite reuse_allowed. lia.
+  - unfold reuse_max_retry in H. lia.
+Qed.
+
+Lemma fallback_over_stale_conns q r k f :
+  msg_truncated r = Some true -> N.of_nat k <= reuse_max_retry + 1 ->
+  udp_with_fallback q (Reply r) (fun q' => fst (reuse_stale k f q')) = (RReply (f q), [q]).
+Proof.
+  intros E H. rewrite (result_is_tcp_reply_when_tc _ _ _ E), reuse_stale_answered by exact H.
+  reflexivity.
+Qed.
